@@ -4,7 +4,7 @@ from checks.common import bounded_part, want, contract_sources, make_replay, t_o
 from pysym.harness import run_cases
 
 LEVEL = 'exploration'
-DEDUCTIVE = [('contracts.hashes', ('Element.__hash__', 'Bond.__hash__', 'CANARY'))]          # (contract module, case-name filter) run by engine P
+DEDUCTIVE = [('contracts.hashes', ('Element.__hash__', 'Bond.__hash__', 'CANARY')), ('contracts.ringsmorgan', ('_morgan',))]          # (contract module, case-name filter) run by engine P
 FINISH = dict(rule='see checks/b01.py RULE / run.bound entries', explanation='bounded stand-in (engine B) of the contracts of DESIGN §2 C01; '
               'labelled bounded, never counted as proved', trusted_base=['CPython 3.12', 'oracles/*', 'RDKit where stated'])
 replay = make_replay('C01')
